@@ -942,14 +942,31 @@ def rtc_units(tier):
         us.append(Unit(f"C02/rtc/tensor_scalar#{i}[{part[0]}..]", "contracts.rtc_C02", "rtc_percase", (part, tier, ("tensor_operands", "scalars")), engine="rtc", timeout_s=1500))
     for i, part in enumerate(_chunks(names, 3 if tier == "quick" else 8)):
         us.append(Unit(f"C02/rtc/batch_diag_cat#{i}[{part[0]}..]", "contracts.rtc_C02", "rtc_percase", (part, tier, ("batch_ops", "diag_lowrank", "cat")), engine="rtc", timeout_s=1500))
-    nprog, k = (6000, 3) if tier == "quick" else (16000, 8)
+    nprog, k = (6000, 3) if tier == "quick" else (40000, 10)
     for i in range(k):
         us.append(Unit(f"C02/rtc/programs#{i}", "contracts.rtc_C02", "rtc_programs", (i * nprog // k, (i + 1) * nprog // k, tier), engine="rtc", timeout_s=1500))
     return us
 
 
 RTC_META = {
-    "explanation": "bounded run-time contracts: every expression step on the real code is compared with the same step on the dense oracles",
-    "assumptions": [],
-    "families": "",
+    "explanation": "bounded run-time contracts on the real code under real torch: every expression step (binary op on an ordered class pair, scalar / tensor "
+                   "operand, batch rewrite, add_diagonal / add_jitter / add_low_rank / cat_rows / cat, and every step of random multi-step programs) is compared "
+                   "with the same step on the independent dense oracles with torch broadcasting semantics: shape, dtype, to_dense() value, and the action of the "
+                   "result on a probe matrix (one more `@ tensor` program step)",
+    "assumptions": [
+        "operations defined through root decompositions (operator*operator, + root-form operator, add_low_rank, cat_rows, prod) are exercised on positive "
+        "(semi-)definite operands only, as the property's quantifier states; cat_rows uses blocks with a positive definite Schur complement",
+        "NotImplementedError is accepted everywhere as the explicit not-supported error; RuntimeError only for add_diagonal on non-square operators and for a "
+        "diagonal with a larger batch shape than the operator",
+        "tolerances: float64 1e-9 x scale, float32 2e-4 x scale relative to max(1, |expected|, |operands|) (scale = inner dimension for matmul, 10..100 for root-based paths)",
+    ],
+    "families": "quick: (1) all 62x62 ordered pairs of 52 zoo + 10 extra cases (negative/indefinite diagonals, semi-definite roots, other child classes) that share a matrix "
+                "shape: +, -, add/sub(alpha), @ (also rectangular inner dims), elementwise * on PSD pairs; 2 matrix shapes x up to 6 batch-shape pairs (equal, one-sided, "
+                "size-1, two-sided broadcast) x float64/float32; (2) per case x {float64: 5 batch shapes x sizes 1,3,4; float32 sub-grid}: tensor operands of 5 batch kinds for "
+                "+,-,*,/ in both orders, 17-20 scalar kinds (python float/int +,-,0,1; 0-d; 1-element of rank 1..3; batch of constants positive/mixed/negative/with zero/"
+                "all-ones shape/partial leading/partial trailing/larger batch) for *, reversed *, /, also under the other default dtype; expand/repeat/unsqueeze/squeeze/"
+                "permute (all permutations)/transpose/sum over every dim incl. negative dims; add_diagonal (0-d, 1-elt, full, signed, batched, (..,1), broadcast, partial, "
+                "larger batch), add_jitter; add_low_rank, cat_rows (also cross_mat with an extra batch dim), prod on PSD cases; cat()/CatLinearOperator along every dim mixed "
+                "with tensors; (3) 6000 random programs of depth <= 3 over 25 operations.  thorough: 4 shapes x up to 14 batch pairs, sizes 1,2,3,4,6, 8 batch shapes, full "
+                "dtype product, 40000 programs of depth <= 4",
 }
